@@ -204,6 +204,11 @@ func (u *uploader) createReport(start time.Time, expiryDate string, countFiles [
 			if !cfg.HasGoVersion(p.GoVersion) || !cfg.HasProgram(p.Program) || !cfg.HasVersion(p.Program, p.Version) {
 				continue
 			}
+			// The upload server validates the platform too, and rejects the
+			// whole report if it is not in the config.
+			if !cfg.HasGOOS(p.GOOS) || !cfg.HasGOARCH(p.GOARCH) {
+				continue
+			}
 			x := &telemetry.ProgramReport{
 				Program:   p.Program,
 				Version:   p.Version,
